@@ -633,7 +633,7 @@ func cliWork(line string) string {
 // generation
 
 var taskPool = []string{"build", "lint", "docs", "pack", "gen", "vet", "ship"}
-var docPool = []string{"Run the thing", "Second doc", "Compile all of it", "Makes a package", "X", "Checks style and more"}
+var docPool = []string{"Run the thing", "Second doc", "Compile all of it", "Makes a package", "X", "Checks style and more", "needs >= 80% of statements (100%!)", "%d files, %s each %%"}
 var statusPool = []int{1, 1, 2, 3, 7, 126, 127, 128, 130, 200, 254, 255}
 
 type gen struct {
@@ -659,7 +659,7 @@ func (g *gen) genSpec(o specOpts) ([]varSpec, []taskSpec) {
 		nv = g.rng.Intn(o.maxVars + 1)
 	}
 	lit := map[string]string{}
-	pool := []varSpec{{name: "VA", val: "hello"}, {name: "VB", val: "v two"}, {name: "PTH", join: true, args: []string{"out", "x"}},
+	pool := []varSpec{{name: "VA", val: "hello"}, {name: "VB", val: "v two 50% %s"}, {name: "PTH", join: true, args: []string{"out", "x"}},
 		{name: "VC", val: ""}, {name: "OUTD", join: true, args: []string{"dist"}}}
 	g.rng.Shuffle(3, func(i, j int) { pool[i], pool[j] = pool[j], pool[i] })
 	for i := 0; i < nv && i < len(pool); i++ {
